@@ -103,8 +103,10 @@ impl<'a, const N: usize> Iterator for GroupedListValuesIter<'a, N> {
                 break Some((value, self.grouping_values));
             }
 
-            let idx = self.grouping_tags.iter().position(|t| t == tag).unwrap();
-            self.grouping_values[idx] = value;
+            // Ignore fields that are neither the primary tag nor one of the grouping tags
+            if let Some(idx) = self.grouping_tags.iter().position(|t| t == tag) {
+                self.grouping_values[idx] = value;
+            }
         }
     }
 }
